@@ -71,6 +71,8 @@ for i in range(2000):
 obs.append(('after', sys.argv[-1] == TAG, sys.path[-1] == TAG, math.leak == TAG, shared_mod.counter, shared_mod.items == [TAG], len('abc') == TAG, G == TAG, total))
 ''']
 
+# a registered module with a source-text body (compiled lazily on the first import by whichever context comes first)
+PROGS.append("obs = []\nimport tsrc\nobs.append(('fresh', tsrc.counter[0], list(tsrc.items)))\ntsrc.items.append(TAG)\nobs.append(('bumped', tsrc.bump(), tsrc.bump(), tsrc.items == [TAG]))\nimport tsrc as t2\nobs.append(t2 is tsrc)\n")
 for _v in ("a", "b"):
     PROGS.append("obs = []\nimport sys\nsys.path = [sys.path[0] + '/variant_%s'] + sys.path\nimport dup_mod\nobs.append(('which', dup_mod.WHO, dup_mod.helper()))\nimport dup_mod as again\nobs.append(again is dup_mod)\n" % _v)
 
@@ -170,7 +172,13 @@ def check(res):
                 else: tie_bad += [sh[i] for i in v]
     res.oblige("correspondence: final observation of every (context, module, key) after %d interleaved operation histories on real contexts = the model (vm_compute)" % nh, tie_err is None and not tie_bad, tie_err or str([cases[i] for i in tie_bad[:1]]))
     # ---- isolation + race search
-    gen = [wrap_program(s) for s in progs.all_programs(seed, 12)]
+    def compiles(src):
+        try:
+            compile(src, "<gen>", "exec"); return True
+        except SyntaxError:
+            return False
+    # (some generators emit deliberately invalid programs for other properties: not usable as jobs here)
+    gen = [w for w in (wrap_program(s) for s in progs.all_programs(seed, 12)) if compiles(w)]
     rnd.shuffle(gen)
     programs = PROGS + gen[:(60 if tier == "quick" else 600)]
     NP = len(PROGS)
